@@ -9,6 +9,9 @@
     [plan] (the list of file-system actions decided from the snapshot) followed by [apply] of each
     action on the evolving directory.  Go's map iteration order is modelled as first-appearance
     order (the correspondence shows the result does not depend on it on the generated inputs).
+    The one decision taken from the live directory is servesOtherRepos (is another repository still
+    alive in this compound shard?), used when shardMerging is off: it is the action [TombOrRm], whose
+    [apply] inspects the evolving directory.
     Not modelled: failures of rename/remove/chtimes (moveAll's failure fallback), unreadable shards. *)
 From ZV Require Import Lib.Base.
 Open Scope Z_scope.
@@ -51,6 +54,9 @@ Definition consistent (g : list sref) : bool :=
 Inductive act :=
 | RmIndex (b : N) | RmTrash (b : N)          (* removeAll of one shard (+ sidecar) *)
 | Tomb (b : N) (id : N) (flag : bool)        (* index.SetTombstone / UnsetTombstone on an index shard *)
+| TombOrRm (b : N) (id : N) (to_trash : bool) (* shardMerging off, compound shard: SetTombstone if servesOtherRepos,
+                                                else removeAll (to_trash: moveAll's HACK branch, which first
+                                                removes the destination in the trash) *)
 | Touch (b : N) | TouchTrash (b : N)         (* os.Chtimes(path, now, now) *)
 | MvToTrash (b : N) | MvToIndex (b : N)      (* the renames of moveAll for one simple shard *)
 | ClearTmp.
@@ -86,6 +92,15 @@ Section Plan.
       let g := group ix id in
       if consistent g then [] else
       map (fun s => Tomb (s_base s) id true) (filter (fun s => sm && s_compound s) g) ++
+      map (fun s => if s_compound s then TombOrRm (s_base s) id false else RmIndex (s_base s))
+          (filter (fun s => negb (sm && s_compound s)) g)) (ids_of ix).
+  (** before the repair `fix: indexserver cleanup: keep compound shards that still serve other repositories
+      when shard merging is disabled`: with shardMerging off compound shards were removed outright *)
+  Definition plan3_before_fix2 : list act :=
+    flat_map (fun id =>
+      let g := group ix id in
+      if consistent g then [] else
+      map (fun s => Tomb (s_base s) id true) (filter (fun s => sm && s_compound s) g) ++
       map (fun s => RmIndex (s_base s)) (filter (fun s => negb (sm && s_compound s)) g)) (ids_of ix).
   Definition keys3 : list N := filter (fun id => consistent (group ix id)) (ids_of ix).
 
@@ -114,6 +129,14 @@ Section Plan.
       let g := group ix id in
       map (fun s => Touch (s_base s)) g ++
       map (fun s => Tomb (s_base s) id true) (filter (fun s => sm && s_compound s) g) ++
+      flat_map (fun s => if s_compound s then [TombOrRm (s_base s) id true] else move_to false s)
+               (filter (fun s => negb (sm && s_compound s)) g)) keys4.
+  (** before the second repair (see plan3_before_fix2): moveAll's HACK branch deleted the compound shard *)
+  Definition plan5_before_fix2 : list act :=
+    flat_map (fun id =>
+      let g := group ix id in
+      map (fun s => Touch (s_base s)) g ++
+      map (fun s => Tomb (s_base s) id true) (filter (fun s => sm && s_compound s) g) ++
       flat_map (move_to false) (filter (fun s => negb (sm && s_compound s)) g)) keys4.
 
   (** before the repair: tombstone only when the repository's ONLY shard is a compound shard,
@@ -130,7 +153,8 @@ Section Plan.
       end) keys4.
 
   Definition plan : list act := plan1 ++ plan3 ++ plan4 ++ plan5 ++ [ClearTmp].
-  Definition plan_before_fix : list act := plan1 ++ plan3 ++ plan4 ++ plan5_before_fix ++ [ClearTmp].
+  Definition plan_before_fix : list act := plan1 ++ plan3_before_fix2 ++ plan4 ++ plan5_before_fix ++ [ClearTmp].
+  Definition plan_before_fix2 : list act := plan1 ++ plan3_before_fix2 ++ plan4 ++ plan5_before_fix2 ++ [ClearTmp].
 
   (** ---- the file-system actions *)
   Definition rm (b : N) (fs : list file) : list file := filter (fun f => negb (N.eqb (f_base f) b)) fs.
@@ -141,12 +165,21 @@ Section Plan.
   Definition on_file (b : N) (g : file -> file) (fs : list file) : list file :=
     map (fun f => if N.eqb (f_base f) b then g f else f) fs.
   Definition touch (f : file) : file := mkF (f_base f) (f_compound f) now (f_repos f).
+  (** servesOtherRepos(shard b, id): the shard file named b (ReadMetadataPathAlive) has a live repository other than id *)
+  Definition others_alive (id : N) (f : file) : bool :=
+    existsb (fun e => negb (e_tomb e) && negb (N.eqb (e_id e) id)) (f_repos f).
+  Definition serves_others (b id : N) (fs : list file) : bool :=
+    existsb (fun f => N.eqb (f_base f) b && others_alive id f) fs.
 
   Definition apply (x : dir) (a : act) : dir :=
     match a with
     | RmIndex b => mkD (rm b (d_index x)) (d_trash x) (d_tmps x)
     | RmTrash b => mkD (d_index x) (rm b (d_trash x)) (d_tmps x)
     | Tomb b id flag => mkD (on_file b (set_flag id flag) (d_index x)) (d_trash x) (d_tmps x)
+    | TombOrRm b id totr =>
+        if serves_others b id (d_index x)
+        then mkD (on_file b (set_flag id true) (d_index x)) (d_trash x) (d_tmps x)
+        else mkD (rm b (d_index x)) (if totr then rm b (d_trash x) else d_trash x) (d_tmps x)
     | Touch b => mkD (on_file b touch (d_index x)) (d_trash x) (d_tmps x)
     | TouchTrash b => mkD (d_index x) (on_file b touch (d_trash x)) (d_tmps x)
     | MvToTrash b => match find_file b (d_index x) with
@@ -162,6 +195,7 @@ Section Plan.
 
   Definition cleanup : dir := fold_left apply plan d.
   Definition cleanup_before_fix : dir := fold_left apply plan_before_fix d.
+  Definition cleanup_before_fix2 : dir := fold_left apply plan_before_fix2 d.
 End Plan.
 
 (** ---- correspondence runner *)
